@@ -32,6 +32,8 @@ class Rec:
                 return ('dict',) + tuple((kk, k(v)) for kk, v in sorted(x.items()))
             if isinstance(x, Sym):
                 return ('sym-value', id(x))
+            if isinstance(x, slice):
+                return ('slice', k(x.start), k(x.stop), k(x.step))
             try:
                 hash(x)
                 return ('const', x)
@@ -137,6 +139,8 @@ class Rec:
 def _k(idx):
     if isinstance(idx, Rec):
         return idx.key()
+    if isinstance(idx, slice):
+        return ('slice', _k(idx.start), _k(idx.stop), _k(idx.step))
     if isinstance(idx, tuple):
         return tuple(_k(x) for x in idx)
     return idx
@@ -149,6 +153,8 @@ def same(a, b):
         return type(a) is type(b) and len(a) == len(b) and all(same(x, y) for x, y in zip(a, b))
     if isinstance(a, Rec) or isinstance(b, Rec):
         return False
+    if isinstance(a, slice) and isinstance(b, slice):
+        return same(a.start, b.start) and same(a.stop, b.stop) and same(a.step, b.step)
     return a is b or (not isinstance(a, Sym) and not isinstance(b, Sym) and a == b)
 
 
